@@ -60,6 +60,10 @@ func c01Raw(rcx *RunCtx) {
 				c.RQID = g.qid()
 			case "Readlink":
 				c.RStr = g.text()
+				if g.ch(5) == 0 {
+					// the longest string a reply can carry, and its neighbour
+					c.RStr = string(nbytes(uint64(len(c.Path)), []int{65535, 65534, 65535}[g.ch(3)]))
+				}
 			case "Lock":
 				c.RLock = p9.LockStatus(g.u32())
 			case "Readdir":
